@@ -12,9 +12,19 @@ import (
 
 // Opts selects the deviation bound and the expensive alternatives.
 type Opts struct {
-	D         int  // maximal number of message fields away from their base value (1 or 2)
+	D         int  // maximal number of message fields away from their base value (1, 2 or 3)
 	Thorough  bool // include 65535-byte strings, 70000-byte blobs
 	TypeDepth int  // depth of the data-type trees used as alternatives for column types
+}
+
+func (o Opts) lvl() int {
+	switch {
+	case o.Thorough:
+		return 2
+	case o.TypeDepth == 0:
+		return 0
+	}
+	return 1
 }
 
 type devRef struct {
@@ -26,7 +36,7 @@ type devRef struct {
 func listDevs(m message.Message, v V, o Opts, types []datatype.DataType) []devRef {
 	var out []devRef
 	i := 0
-	walk(reflect.ValueOf(m).Elem(), "", v, o.Thorough, types, func(path string, set func(reflect.Value), alts []reflect.Value) {
+	walk(reflect.ValueOf(m).Elem(), "", v, o.lvl(), types, func(path string, set func(reflect.Value), alts []reflect.Value) {
 		for a := range alts {
 			out = append(out, devRef{i, a, path})
 		}
@@ -47,7 +57,7 @@ func applyDev(m message.Message, v V, o Opts, types []datatype.DataType, idx, al
 			}
 		}
 	}()
-	walk(reflect.ValueOf(m).Elem(), "", v, o.Thorough, types, func(path string, set func(reflect.Value), alts []reflect.Value) {
+	walk(reflect.ValueOf(m).Elem(), "", v, o.lvl(), types, func(path string, set func(reflect.Value), alts []reflect.Value) {
 		if i == idx {
 			if alt < len(alts) {
 				set(alts[alt])
@@ -125,7 +135,8 @@ func Frames(v V, o Opts, emit func(Case)) {
 		}
 		out(fmt.Sprintf("EXECUTE/opts%d", i), plain(ex))
 	}
-	// 1 deviation
+	// 1 deviation, for every base; then pairs for every base; then triples: simplest first, so that a
+	// deadline cuts the deepest level only
 	for _, b := range bases {
 		devs := listDevs(b.msg, v, o, types)
 		for _, d := range devs {
@@ -134,19 +145,33 @@ func Frames(v V, o Opts, emit func(Case)) {
 				out(fmt.Sprintf("%s/%s=%d", b.name, d.path, d.alt), plain(m))
 			}
 		}
-		if o.D >= 2 {
-			// pairs at distinct deviation points; the later point (in walk order) is applied first
-			small := Opts{D: 2, Thorough: false, TypeDepth: 0}
-			stypes := DataTypes(0)[:6]
+	}
+	small := Opts{D: 2, Thorough: false, TypeDepth: 0}
+	stypes := DataTypes(0)[:6]
+	for level := 2; level <= o.D && level <= 3; level++ {
+		for _, b := range bases {
+			// deviations at distinct points; the later point (in walk order) is applied first
 			sd := listDevs(b.msg, v, small, stypes)
 			for x := 0; x < len(sd); x++ {
 				for y := x + 1; y < len(sd); y++ {
 					if sd[x].idx == sd[y].idx {
 						continue
 					}
-					m := Clone(b.msg).(message.Message)
-					if applyDev(m, v, small, stypes, sd[y].idx, sd[y].alt) && applyDev(m, v, small, stypes, sd[x].idx, sd[x].alt) {
-						out(fmt.Sprintf("%s/%s=%d,%s=%d", b.name, sd[x].path, sd[x].alt, sd[y].path, sd[y].alt), plain(m))
+					if level == 2 {
+						m := Clone(b.msg).(message.Message)
+						if applyDev(m, v, small, stypes, sd[y].idx, sd[y].alt) && applyDev(m, v, small, stypes, sd[x].idx, sd[x].alt) {
+							out(fmt.Sprintf("%s/%s=%d,%s=%d", b.name, sd[x].path, sd[x].alt, sd[y].path, sd[y].alt), plain(m))
+						}
+						continue
+					}
+					for z := y + 1; z < len(sd); z++ {
+						if sd[z].idx == sd[y].idx || sd[z].idx == sd[x].idx {
+							continue
+						}
+						m := Clone(b.msg).(message.Message)
+						if applyDev(m, v, small, stypes, sd[z].idx, sd[z].alt) && applyDev(m, v, small, stypes, sd[y].idx, sd[y].alt) && applyDev(m, v, small, stypes, sd[x].idx, sd[x].alt) {
+							out(fmt.Sprintf("%s/%s=%d,%s=%d,%s=%d", b.name, sd[x].path, sd[x].alt, sd[y].path, sd[y].alt, sd[z].path, sd[z].alt), plain(m))
+						}
 					}
 				}
 			}
